@@ -250,7 +250,7 @@ def Arg.isTup : Arg → Bool
 inductive OpRes (β : Type) where
   | ap (b : β)
   | seq (k : Kind) (rs : List (OpRes β))
-  | err                                   -- IndexError (empty operand next to a nested one)
+  | err                                   -- (unused since sc3 cd1fb3a: an empty operand gives an empty result)
 deriving Repr, Inhabited
 
 def anySeq (xs : List Arg) : Bool := xs.any Arg.isSeq
@@ -337,10 +337,8 @@ def listBinop {β : Type} (op : Arg → Arg → β) (t : Kind) (a b : Arg) : OpR
   if a.isSeq && b.isSeq then
     let p := extendPair a.items b.items
     if anySeq p.1 || anySeq p.2 then
-      -- `for i in range(len(a)): … b[i]` raises IndexError when the rows differ in length
-      if p.1.length ≤ p.2.length then
-        .seq t ((p.1.zip p.2).attach.map fun ⟨(x, y), _⟩ => listBinop op (innerKind x y) x y)
-      else .err
+      -- `for i in range(min(len(a), len(b)))`: empty when one operand is empty
+      .seq t ((p.1.zip p.2).attach.map fun ⟨(x, y), _⟩ => listBinop op (innerKind x y) x y)
     else .seq t ((p.1.zip p.2).map fun (x, y) => .ap (op x y))
   else if a.isSeq then
     .seq t (a.items.attach.map fun ⟨x, _⟩ => listBinop op x.kind x b)
